@@ -16,7 +16,7 @@ from . import c11, c12
 
 MODES = ["fall", "exit()", "exit(None)", "exit(0)", "exit(False)", "exit(1)", "exit(2)", "exit(str)", "exit('')", "exit([])", "ValueError", "KeyboardInterrupt",
          "raise SystemExit(0)", "raise SystemExit(1)", "builtin exit(0)", "builtin exit(1)"]
-CAUGHT = ["none", "sysexit1", "exception"]
+CAUGHT = ["none", "sysexit1", "sysexit0", "exception"]
 BACKENDS = ["snarkjs", "zkinterface", "zkifbellman", "qaptools", "nobackend"]
 ARTEFACTS = {"snarkjs": ["circuit.r1cs", "witness.wtns"], "zkinterface": ["computation.zkif", "circuit.zkif"],
              "zkifbellman": ["computation.zkif", "circuit.zkif"], "qaptools": ["pysnark_schedule", "pysnark_eqs_main"],
@@ -165,7 +165,7 @@ def run(ctx):
     ctx.cov["prove_calls_observed"] = nprove
     ctx.cov["traces_validated_against_impl"] = len(results)
     ctx.cov["exhaustive"] = True
-    ctx.cov["rule"] = ("fresh interpreter per point: 4 statement positions x 16 ways of terminating x 3 earlier caught events x "
+    ctx.cov["rule"] = ("fresh interpreter per point: 4 statement positions x 16 ways of terminating x 4 earlier caught events x "
                        "autoprove on/off x backends snarkjs, zkinterface, zkifbellman, qaptools (failing tool stubs), nobackend "
                        "(quick: full product for snarkjs, all termination modes at one position for the others); states = "
                        "distinct (backend, exit status, prove calls, artefacts present)")
